@@ -63,6 +63,7 @@ inductive LowerErr where
   | unanchoredNp (op : Nat)
   | malformedOutputs (op : Nat)
   | badHintArity
+  | hornerNotChained
 deriving Repr, DecidableEq
 
 section
